@@ -268,7 +268,19 @@ func TestProp_HonestHistories(t *testing.T) {
 		w := vkit.NewWorld(vkit.WorldConfig{StorageWrapper: rapid.Bool().Draw(t, "serverStorageWrapper"), RootOpts: rootCfg.Opts()})
 		defer w.Close()
 		unix := rapid.IntRange(0, 3).Draw(t, "unixSocket") == 0
-		rig := vkit.NewRig(w, vkit.RigConfig{Unix: unix})
+		// the application may configure the listener's clock skews (non-positive
+		// not-before, non-negative not-after; "no skew" is a legitimate choice)
+		skews := rapid.SampledFrom([]string{"default", "default", "none", "one-second", "an-hour"}).Draw(t, "listenerClockSkews")
+		lopts := w.O()
+		switch skews {
+		case "none":
+			lopts = append(lopts, nodeenrollment.WithNotBeforeClockSkew(0), nodeenrollment.WithNotAfterClockSkew(0))
+		case "one-second":
+			lopts = append(lopts, nodeenrollment.WithNotBeforeClockSkew(-time.Second), nodeenrollment.WithNotAfterClockSkew(time.Second))
+		case "an-hour":
+			lopts = append(lopts, nodeenrollment.WithNotBeforeClockSkew(-time.Hour), nodeenrollment.WithNotAfterClockSkew(time.Hour))
+		}
+		rig := vkit.NewRig(w, vkit.RigConfig{Unix: unix, Options: lopts})
 		defer rig.Close()
 		serverSet := func() map[string]bool {
 			r := w.Roots()
@@ -433,7 +445,7 @@ func TestProp_HonestHistories(t *testing.T) {
 				if n.denied && firstDial {
 					flags["dial-after-authorization-of-denied-node"] = true
 				}
-				detail := map[string]any{"history": hist, "node_chains": n.chains, "server_roots": fmt.Sprint(set), "unix_socket": unix}
+				detail := map[string]any{"history": hist, "node_chains": n.chains, "server_roots": fmt.Sprint(set), "unix_socket": unix, "listener_clock_skews": skews}
 				switch {
 				case expect && derr != nil:
 					key := "C07/registered-node-cannot-connect"
@@ -527,7 +539,7 @@ func TestProp_HonestHistories(t *testing.T) {
 		}
 		sort.Strings(fl)
 		rec.Case("history/"+strings.Join(fl, "+"), strings.Join(hist, ";"), len(fl) > 0, func() any {
-			return map[string]any{"unix_socket": unix, "history": hist}
+			return map[string]any{"unix_socket": unix, "listener_clock_skews": skews, "history": hist}
 		})
 	})
 }
